@@ -320,5 +320,5 @@ func ebMid() {
 	h = append(h, pushRec)
 	h = append(h, reads...)
 	do(0, "Total")
-	report(h, c.Model(), true, c.dagToken())
+	report(h, c.Model(), "buffer", c.dagToken())
 }
